@@ -7,7 +7,7 @@ import json, os, re, subprocess, sys
 ROOT = os.path.dirname(os.path.dirname(os.path.abspath(__file__)))
 cfg = json.load(open(os.path.join(ROOT, "checks.json")))
 pkgs = sorted({p for v in cfg["properties"].values() for p in v["packages"]})
-sigs = json.loads(subprocess.run([os.path.join(ROOT, "bin", "rovc"), "sigs", ",".join(pkgs)], capture_output=True, text=True, check=True).stdout)
+sigs = json.loads(subprocess.run([os.environ.get("ROVC_BIN") or os.path.join(ROOT, "bin", "rovc"), "sigs", ",".join(pkgs)], capture_output=True, text=True, check=True).stdout)
 idre = re.compile(r"[A-Za-z_][A-Za-z0-9_]*")
 for path, blocks in sigs.items():
     lines = open(path).read().split("\n")
@@ -22,7 +22,7 @@ for path, blocks in sigs.items():
         while i < len(lines) and lines[i].startswith("//@   "):
             body.append(lines[i])
             i += 1
-        body = [l for l in body if not l.startswith("//@   binds ")]
+        body = [l for l in body if not l.startswith("//@   binds ") and not l.startswith("//@   calls ")]
         text = " ".join(l for l in body if not re.match(r"^//@   (note|props)\b", l))
         used = set(idre.findall(text))
         names = []
@@ -33,6 +33,10 @@ for path, blocks in sigs.items():
             # after the props line when there is one, else first
             k = next((j + 1 for j, l in enumerate(body) if l.startswith("//@   props")), 0)
             body.insert(k, "//@   binds " + " ".join(names))
+            calls = blocks.get(m.group(1) + "#calls")
+            if calls:
+                # what the closure calls: a second fingerprint, used when a `binds` name is no longer captured
+                body.insert(k + 1, "//@   calls " + " ".join(calls))
             changed += 1
         out.extend(body)
     new = "\n".join(out)
